@@ -264,7 +264,7 @@ fn gen_workload(rng: &mut Rng, thorough: bool) -> Value {
 /// their own and after everything else, so that they neither hide nor get
 /// mixed into other results.
 pub const ISOLATED: &[&str] = &["transducer-state", "thread-result"];
-pub const ISOLATED_JIT: &[&str] = &["struct-field", "nested-containers"];
+pub const ISOLATED_JIT: &[&str] = &[];
 
 fn isolated(kind: &str, jit: bool) -> bool {
     ISOLATED.contains(&kind) || (jit && ISOLATED_JIT.contains(&kind))
